@@ -401,6 +401,8 @@ def check_prelude(prelude):
         selfo.fields.update(_lrtable=lrt, _grammar=gr, track_positions=True)
         selfo.cls_set = frozenset({Y.Parser})       # methods (restart) resolved on the real class
         tokens = SymObj(None, 'tokens', prov='param')
+        tokens.is_iterator = True          # precondition of parse (C05.drv.pre.*): the argument is an iterator (the loop pulls with next(tokens)); iter(it) is it
+        tokens.known_not_none = True
         env = Env(Y)
         env.vars.update(self=selfo, tokens=tokens)
         stmts = [s for s in prelude if not (isinstance(s, ast.Expr) and isinstance(s.value, ast.Constant))]
@@ -433,6 +435,8 @@ def check_prelude(prelude):
         problems.append('tables are not the generated tables of this parser class')
     if selfo.fields.get('tokens') is not res['tokens']:
         problems.append('self.tokens is not the argument')
+    if v.get('tokens') is not res['tokens']:
+        problems.append('the stream the loop pulls from is not the object kept in self.tokens (which error() drains)')
     if selfo.fields.get('used_tokens') != []:
         problems.append('used_tokens not empty')
     if selfo.fields.get('statestack') != [0] or selfo.fields.get('state') != 0:
@@ -548,6 +552,7 @@ def obligations(rep):
         else:
             rep.proved('C05.drv.init', 'pysym', 'prelude executed on an abstract parser object: initial configuration established', function=fnname,
                        clause='prelude establishes lookahead=None, stacks=[0]/[$end], state=0, errorcount=0, tables = generated tables')
+    callsite_obligations(rep)
     # table fact used by the stubs that is not part of the other C05.tab obligations: no edge enters state 0
     for dname in lrtab.DIALECTS:
         d = lrtab.load(dname)
@@ -594,3 +599,61 @@ def obligations(rep):
 def _replay(dname):
     from contracts.C05 import replay_garbage
     return replay_garbage(dname)
+
+
+def callsite_obligations(rep, prefix='C05.drv.pre'):
+    """precondition of Parser.parse at every call site of the library: the argument is an ITERATOR (the result of `iter(...)`, of a generator function such as
+    Lexer.tokenize, or a name bound to one of these).  The driver proof needs it twice: the loop pulls tokens with next(), and error() ends a rejected parse by
+    draining `self.tokens` - which is the stream the loop reads only if the argument itself is that stream (`iter(x) is x`).  A list handed to parse() breaks the
+    second use: nothing is drained and SLY's recovery goes on parsing what follows the rejected token."""
+    import ast as _ast
+    from vlib import repo as _repo
+    n = 0
+    for modname in ('mindsdb_sql',):
+        try:
+            tree = _repo.module_ast(modname)
+        except Exception as e:
+            rep.undecided(f'{prefix}.callsites', 'pysym', f'{type(e).__name__}: {e}', function=modname)
+            return
+        for fn in [x for x in _ast.walk(tree) if isinstance(x, (_ast.FunctionDef, _ast.AsyncFunctionDef))]:
+            for call in [c for c in _ast.walk(fn) if isinstance(c, _ast.Call) and isinstance(c.func, _ast.Attribute) and c.func.attr == 'parse' and c.args]:
+                recv = _ast.unparse(c_ := call.func.value)
+                if 'parser' not in recv.lower():
+                    continue
+                n += 1
+
+                def is_iter(e, depth=0):
+                    if isinstance(e, _ast.Call) and isinstance(e.func, _ast.Name) and e.func.id == 'iter' and len(e.args) == 1:
+                        return True
+                    if isinstance(e, _ast.Call) and isinstance(e.func, _ast.Attribute) and e.func.attr == 'tokenize':
+                        return True                       # a generator function (sly.Lexer.tokenize contains `yield`: C05.lex.*)
+                    if isinstance(e, _ast.GeneratorExp):
+                        return True
+                    if isinstance(e, _ast.Name) and depth < 3:
+                        binds = [a.value for a in _ast.walk(fn) if isinstance(a, _ast.Assign) and any(isinstance(t, _ast.Name) and t.id == e.id for t in a.targets)]
+                        return bool(binds) and all(is_iter(b, depth + 1) for b in binds)
+                    return False
+                oid = f'{prefix}.{fn.name}'
+                clause = 'requires (Parser.parse) the argument is an iterator: iter(...), a generator, or a name bound to one'
+                where = f'{modname}:{fn.name}'
+                if is_iter(call.args[0]):
+                    rep.proved(oid, 'pysym', f'{recv}.parse({_ast.unparse(call.args[0])})', function=where, clause=clause)
+                else:
+                    rep.failed(oid, 'pysym', f'{recv}.parse({_ast.unparse(call.args[0])}): the argument is not known to be an iterator', function=where, clause=clause, replay=replay_callsite())
+    if n == 0:
+        rep.undecided(f'{prefix}.callsites', 'pysym', 'no call of <parser>.parse found in mindsdb_sql/__init__.py', function='mindsdb_sql')
+
+
+def replay_callsite():
+    """a rejected statement whose offending token is followed by a complete statement: no suggestion may be one that the parser rejects at the same place"""
+    from mindsdb_sql import parse_sql
+    import re as _re
+    for sql, bad in (('insert into t (a, b select 1', ['(', ',']), ('drop table t x x select 1', None)):
+        try:
+            parse_sql(sql)
+        except Exception as e:
+            msg = str(e)
+            sug = _re.findall(r'"((?:[^"\\]|\\.)*)"', msg.split('\n')[-1]) if ('Possible inputs' in msg or 'Expected symbol' in msg) else []
+            if bad and any(b in sug for b in bad):
+                return {'input': sql, 'dialect': 'mindsdb', 'fires': True, 'observed': f'suggestions {sug}', 'expected': 'only suggestions that let parsing proceed (")")'}
+    return {'input': None, 'observed': 'no stock input shows it'}
